@@ -32,6 +32,19 @@ def asIntList : Json → Option (List Int)
   | Json.arr a => a.toList.mapM (fun x => (fromJson? x : Except String Int).toOption)
   | _ => none
 
+def exposedSJ : ExposedS → Json
+  | .cached r p => Json.arr #[Json.str "cached", Json.num (Int.ofNat r), intJ p]
+  | .raw r p ok => Json.arr #[Json.str "raw", Json.num (Int.ofNat r), intJ p, Json.bool ok]
+  | .nothing => Json.arr #[Json.str "nothing"]
+  | .broken => Json.arr #[Json.str "broken"]
+
+def runOfJson (j : Json) : Option RunSpec := do
+  let goals ← getArr j "goals"
+  let goals ← goals.mapM goalOfJson
+  let script ← getBoolList j "script"
+  let skips ← (getObj j "skip").bind asIntList
+  pure ⟨goals, fun p => skips.contains p, scriptOracle script⟩
+
 def handle (j : Json) : Option Json := do
   let op ← getStr j "op"
   match op with
@@ -51,6 +64,17 @@ def handle (j : Json) : Option Json := do
         ("priorities", Json.arr ((priorities goals).map intJ).toArray),
         ("empty", Json.arr (goals.map (fun g => Json.bool (isEmpty g))).toArray),
         ("sizes", Json.arr ((priorities goals).map (fun p => Json.num (Int.ofNat (goalsAt goals p).length))).toArray)])
+  | "seq" =>
+      let single ← getBool j "single"
+      let reset := (getBool j "reset").getD true
+      let runs ← getArr j "runs"
+      let runs ← runs.mapM runOfJson
+      let v := if single then Variant.singlePass else Variant.multiPass
+      let out := seqFrom v reset 0 Persist.init runs
+      pure (Json.arr (out.map (fun x => Json.mkObj [
+        ("events", Json.arr (x.1.events.map eventJ).toArray),
+        ("ret", Json.bool x.1.success),
+        ("exposed", exposedSJ x.2)])).toArray)
   | _ => none
 
 def main : IO Unit := runDriver handle
